@@ -103,11 +103,17 @@ use std::io::Error as IoError;
 use std::io::ErrorKind as IoErrorKind;
 use std::io::Result as IoResult;
 use std::net::{Shutdown, TcpStream, ToSocketAddrs};
+#[cfg(not(tiny_http_verif))]
 use std::sync::atomic::AtomicBool;
+#[cfg(tiny_http_verif)]
+use crate::verif_rt::sync::atomic::AtomicBool;
 use std::sync::atomic::Ordering::Relaxed;
 use std::sync::mpsc;
 use std::sync::Arc;
+#[cfg(not(tiny_http_verif))]
 use std::thread;
+#[cfg(tiny_http_verif)]
+use crate::verif_rt::thread;
 use std::time::Duration;
 
 use client::ClientConnection;
